@@ -118,7 +118,7 @@ pub fn sampling_hirs(
 
 pub fn gen_case(rng: &mut Rng, corpus: &[String]) -> Option<Case01> {
     let flags = gen_flags(rng);
-    let npat = if rng.chance(1, 5) { rng.range(2, 3) } else { 1 };
+    let npat = if rng.chance(1, 4) { rng.range(2, 3) } else { 1 };
     let mut patterns = vec![];
     for _ in 0..npat {
         let p = if flags.fixed {
@@ -130,6 +130,29 @@ pub fn gen_case(rng: &mut Rng, corpus: &[String]) -> Option<Case01> {
             return None;
         }
         patterns.push(p);
+    }
+    // Several patterns that are "the same up to something": equal up to
+    // letter case (`\S` / `\s`, `\W` / `\w`, `A` / `a`: different meanings),
+    // or literally equal; each of them counts.
+    if patterns.len() >= 2 && rng.chance(1, 3) {
+        let first = patterns[0].clone();
+        let swapped: String = first
+            .chars()
+            .map(|c| {
+                if c.is_ascii_lowercase() {
+                    c.to_ascii_uppercase()
+                } else if c.is_ascii_uppercase() {
+                    c.to_ascii_lowercase()
+                } else {
+                    c
+                }
+            })
+            .collect();
+        let variant = if rng.chance(1, 4) { first } else { swapped };
+        if flags.fixed || !patgen::excluded(&variant) {
+            let k = patterns.len() - 1;
+            patterns[k] = variant;
+        }
     }
     // Cheap pre-check so that rejected patterns do not cost an input.
     if oracle::build_matcher(&patterns, &flags).is_err() {
